@@ -16,7 +16,8 @@ ASSUMPTIONS = [
 TRUSTED = ["scipy.linalg.khatri_rao is modelled by the row product (Model/Matrices.lean:khatriRao)"]
 
 EFFECTS = ["1", "x", "f", "x + f", "0 + f", "f:x", "z", "0 + x", "h", "center(x)", "x + z", "C(k)",
-           "1 + x", "f:h", "0 + f + h", "f + h", "0 + f:x", "x:z", "S(f)", "T(f, 'b')", "scale(x)"]
+           "1 + x", "f:h", "0 + f + h", "f + h", "0 + f:x", "x:z", "S(f)", "T(f, 'b')", "scale(x)",
+           "bs(x, df=4)", "0 + poly(z, 2)", "poly(x, 3, raw=True)", "bs(z, df=3):f", "0 + bs(x, df=3, degree=2)"]
 GROUPINGS = ["g", "h", "g:h", "C(k)", "g + h", "g/h", "cu", "co", "k", "co:h"]
 CORPUS = ["y ~ (f:h | g)", "y ~ (0 + f + h | g)", "y ~ (f | g + h) - (1 | h)", "y ~ (x | g:h)",
           "y ~ (1 | g/h)", "y ~ (0 + f | g)", "y ~ (f + x | co)", "y ~ x + (x | k)"]
@@ -93,8 +94,9 @@ def full_indicator_reference(df, term_exprs, grouping):
 
 
 def coding_rule_stage(res, tier, seed, open_ids):
-    """second clause of the statement, on fully crossed data: the columns of one grouping factor are
-    linearly independent and span all group-by-cell means of the effect expression (exact rank)"""
+    """second clause of the statement, on fully crossed data: for every grouping factor, the columns
+    of its terms are linearly independent and span all group-by-cell means of the effect expression
+    (exact rank)"""
     import formulae
     from formulae.terms import Intercept
     n_rep = 1 if tier == "quick" else 6
@@ -104,7 +106,10 @@ def coding_rule_stage(res, tier, seed, open_ids):
         forms = [f"y ~ ({eff} | g)" for eff in RULE_EFFECTS] + [
             "y ~ (0 + h | g) + (1 | g)", "y ~ (1 | g) + (0 + h | g)",
             "y ~ (0 + x | g) + (0 + f | g) + (1 | g)", "y ~ (0 + f | g) + (x | g)",
-            "y ~ x + (0 + f | g) + f + (1 | g)", "y ~ (0 + f:h | g) + (0 + x | g)"]
+            "y ~ x + (0 + f | g) + f + (1 | g)", "y ~ (0 + f:h | g) + (0 + x | g)",
+            # several grouping factors: the coding of one must not depend on the others
+            "y ~ (x | g) + (0 + h | f)", "y ~ (0 + h | f) + (x | g)", "y ~ (1 | g) + (0 + h | g + f)",
+            "y ~ (x | f) + (0 + x | g) + (0 + h | g)", "y ~ (h | g) + (0 + f | h)"]
         for formula in forms:
             res.evaluations += 1
             case = {"formula": formula, "seed_path": f"rule{rep}"}
@@ -113,27 +118,36 @@ def coding_rule_stage(res, tier, seed, open_ids):
             except Exception as e:  # noqa
                 res.count("rule_impl_error:" + type(e).__name__)
                 continue
-            terms = list(dm.group.terms.values())
-            z = np.column_stack([dm.group[t.name] for t in terms])
-            exprs, flags = [], []
-            for t in terms:
-                if isinstance(t.expr, Intercept):
-                    exprs.append([])
-                else:
-                    exprs.append([str(c.name) for c in t.expr.components])
-                    flags.append([t.name, [[str(c.name), bool(c.spans_intercept)] for c in t.expr.components
-                                           if c.kind == "categoric"]])
-            ref = full_indicator_reference(df, exprs, "g")
-            rz = rank(z.tolist())
-            rr = rank(ref.tolist())
-            rj = rank(np.column_stack([z, ref]).tolist())
-            res.count("rule_cases")
-            ok = rz == z.shape[1] and rz == rr == rj
-            res.nontrivial.add((formula, rep))
-            has_icpt = any(isinstance(t.expr, Intercept) for t in terms)
-            if not ok:
-                # recorded defect classes D11 / D12: the rule the code uses ("reduced iff (1 | g) is in
-                # the model") differs from the common-effects analysis (C03) of the effect family,
+            all_terms = list(dm.group.terms.values())
+            factors = []
+            for t in all_terms:
+                if t.factor.name not in factors:
+                    factors.append(t.factor.name)
+            for fac in factors:
+                if ":" in fac:
+                    continue
+                terms = [t for t in all_terms if t.factor.name == fac]
+                z = np.column_stack([dm.group[t.name] for t in terms])
+                exprs, flags = [], []
+                for t in terms:
+                    if isinstance(t.expr, Intercept):
+                        exprs.append([])
+                    else:
+                        exprs.append([str(c.name) for c in t.expr.components])
+                        flags.append([t.name, [[str(c.name), bool(c.spans_intercept)]
+                                               for c in t.expr.components if c.kind == "categoric"]])
+                ref = full_indicator_reference(df, exprs, fac)
+                rz = rank(z.tolist())
+                rr = rank(ref.tolist())
+                rj = rank(np.column_stack([z, ref]).tolist())
+                res.count("rule_cases")
+                ok = rz == z.shape[1] and rz == rr == rj
+                res.nontrivial.add((formula, fac, rep))
+                has_icpt = any(isinstance(t.expr, Intercept) for t in terms)
+                if ok:
+                    continue
+                # recorded defect classes D11 / D12: the rule the code uses ("reduced iff (1 | g) is
+                # in the model") differs from the common-effects analysis (C03) of the effect family,
                 # decided by the Lean driver
                 fam = []
                 for t in terms:
@@ -157,13 +171,13 @@ def coding_rule_stage(res, tier, seed, open_ids):
                 fid = cls if cls in open_ids else None
                 if fid:
                     res.known_hit[fid] = res.known_hit.get(fid, 0) + 1
-                res.failures.append({"case": case, "impl": {"columns": int(z.shape[1]), "rank": rz,
-                                                            "rank_reference": rr, "rank_joint": rj,
-                                                            "flags": flags},
+                res.failures.append({"case": dict(case, factor=fac),
+                                     "impl": {"columns": int(z.shape[1]), "rank": rz,
+                                              "rank_reference": rr, "rank_joint": rj, "flags": flags},
                                      "expected": "independent columns spanning the group-by-cell means",
                                      "finding": fid,
-                                     "why": f"columns of grouping factor g: {z.shape[1]} columns, rank {rz}, "
-                                            f"reference space rank {rr}, joint rank {rj}"})
+                                     "why": f"columns of grouping factor {fac}: {z.shape[1]} columns, "
+                                            f"rank {rz}, reference space rank {rr}, joint rank {rj}"})
 
 
 def explore(tier, seed, res=None, replay=None):
